@@ -129,7 +129,7 @@ func c15AgentCase(r *verifkit.R, n, k, ci int) {
 		}
 	}
 	r.Eval(fmt.Sprintf("chain%d-k%d", n, k), k < n-1)
-	if vio == 0 {
+	if r.NeedSample() {
 		r.Sample(map[string]any{"chain": n, "max_hops": k, "tables": rows})
 	}
 }
